@@ -1,4 +1,5 @@
 import Mdsort.Proofs.Inspect
+import Mdsort.Proofs.InspectTrue
 
 /-!
 # C06 - dry run predicts the real run and its explanations are true
@@ -45,5 +46,79 @@ theorem C06_marker_columns (width : Bytes → Nat) (hw : Proofs.Additive width) 
       spaces (pre.length + width ((val.drop (lstart + nspaces line)).take (beg - (lstart + nspaces line)))) ++ [94] ++
       spaces (w - 2) ++ [36, 10] :=
   Proofs.marker_columns width hw home confpath mh key val beg end_ s hins hk hv hsub hne hle hnl hlead
+
+/-- **The explanations printed by a dry run are true** (all definitions in `Proofs/InspectTrue.lean`).
+For every match list, width function, home, configuration path and message path: the text
+`matches_inspect` prints under `-d` is, for the splitting of the list at its action entries into groups
+`(entries since the previous action entry, action)` plus trailing non-action entries - these are
+exactly the entries `matches_inspect` walks from `lhs` to each action -, the concatenation over the
+groups of the action's `path -> destination` line and the blocks of the group's entries, where
+(`ExplainsEntry`) an entry whose type lacks the INSPECT flag of the generated table prints nothing, and
+an INSPECT entry prints exactly one block per sub-match that is set and non-empty
+(`printedSubs`: `off = some (so, eo)` with `so ≠ eo`, the test `beg == end` of `expr_inspect`), in
+order, each block (`ExplainsSub`) quoting a line of the value the pattern was applied to (a maximal
+newline-free segment `IsLineAt`, leading blanks dropped) - the line the sub-match begins in whenever it
+begins at a byte of the value other than a newline - with `$` placed `width(match) - 2` columns after `^`. -/
+theorem C06_explanations_true (width : Bytes → Nat) (home confpath : Bytes) (stdinMode : Bool) (path : Bytes)
+    (ml : MatchList) :
+    ∃ (groups : List Proofs.Explained) (tail : MatchList),
+      ml = groups.flatMap (fun g => g.entries ++ [g.action]) ++ tail ∧
+      (∀ m ∈ tail, m.ty.isAction = false) ∧
+      matchesInspect width home confpath stdinMode true path ml =
+        groups.flatMap (Proofs.Explained.text stdinMode path) ∧
+      ∀ g ∈ groups, g.action.ty.isAction = true ∧ (∀ m ∈ g.entries, m.ty.isAction = false) ∧
+        Proofs.Pointwise (Proofs.ExplainsEntry width home confpath) g.entries g.blocks :=
+  Proofs.explanations_true width home confpath stdinMode path ml
+
+/-- The INSPECT flag of the table regenerated from `expr_alloc`: header, body and date conditions. -/
+theorem C06_inspect_flag (t : MType) : t.isInspect = true ↔ t = .body ∨ t = .date ∨ t = .header :=
+  Proofs.isInspect_iff t
+
+/-- The value an explanation quotes is the value the pattern was applied to: in a dry run the entry
+`expr_regexec` appends for a body, date or header condition carries the name, exactly the subject
+given to the regex engine and the offsets the engine returned for it; its printed sub-matches are
+the set, non-empty groups of the engine's answer. -/
+theorem C06_explanations_subject (env : Env) (ty : MType) (lno part : Nat) (p : Pat) (key val : Bytes) (st : St)
+    (groups : List (Option (Nat × Nat)))
+    (hty : ty.isInspect = true) (hd : env.dryrun = true) (hrx : env.rx p val = .ok groups) :
+    exprRegexec env ty lno part p key val st =
+      (.match, { st with ml := st.ml ++ [{ ty := ty, lno := lno, part := part, subs := matchCopy p val groups,
+                                           pat := some p, key := some key, val := some val }] }) ∧
+    Proofs.printed (matchCopy p val groups) =
+      groups.filterMap (fun g => match g with
+        | some (so, eo) => if so == eo then none else some (so, eo)
+        | none => none) :=
+  Proofs.regexec_records env ty lno part p key val st groups hty hd hrx
+
+/-- The stronger reading of the property text - "an explanation printed under an action comes from the
+rule of that action", i.e. no `match` sentinel stands between a printing entry and the action it is
+printed under (`Proofs.ExplainedInActionRule`) - for every evaluation.  It is FALSE: -/
+def C06_explanations_same_rule : Prop :=
+  ∀ (width : Bytes → Nat) (home confpath : Bytes) (env : Env) (root : Msg) (e : Expr) (m : Msg) (f : MFlags),
+    Proofs.ExplainedInActionRule width home confpath (eval env root e 0 m { ml := [], flags := f }).2.ml
+
+/-- ... a rule whose first condition matches and whose second does not leaves the entry of the first
+condition in the list, and `-d` prints it under the action of the next rule that fires
+(`Proofs.InspWit`: `match date modified > 10 seconds and date created > 5000 seconds move "/d1"`,
+`match date access > 10 seconds move "/d2"`; same with header and body conditions on the real binary). -/
+theorem C06_explanations_same_rule_false : ¬ C06_explanations_same_rule :=
+  fun h => Proofs.explainedInActionRule_false
+    (h widthC [47, 104] [99, 111, 110, 102] Proofs.InspWit.env Proofs.InspWit.msg Proofs.InspWit.tree Proofs.InspWit.msg
+      MFlags.empty)
+
+/-! Non-vacuity: the groups of the witness list; a line of a three-line value; skipped sub-matches. -/
+example : Proofs.InspWit.ml =
+    [Proofs.InspWit.eMtch2, Proofs.InspWit.eDate2, Proofs.InspWit.eMtch3, Proofs.InspWit.eDate3] ++
+      [Proofs.InspWit.eMove] ++ [] := rfl
+
+example : Proofs.printedSubs Proofs.InspWit.eDate2 = [(0, 25)] := by decide
+
+/-- `ab\n  cd\nef`: the line at offset 3 is `  cd`. -/
+example : Proofs.IsLineAt [97, 98, 10, 32, 32, 99, 100, 10, 101, 102] 3 [32, 32, 99, 100] :=
+  ⟨[97, 98, 10], [10, 101, 102], rfl, rfl, Or.inr rfl, Or.inr rfl, by decide⟩
+
+/-- An unset group and an empty group are skipped, the others are printed in order. -/
+example : Proofs.printed [{ str := [], off := none }, { str := [], off := some (3, 3) }, { str := [98], off := some (1, 2) },
+    { str := [97, 98], off := some (0, 2) }] = [(1, 2), (0, 2)] := by decide
 
 end Mdsort.Props
